@@ -63,11 +63,19 @@ inductive AddResult where
   | ignored
 deriving Repr, DecidableEq, Inhabited
 
-/-- `RING_BUCKETS`, half-open `lo..hi` in milliseconds. -/
-def ringBuckets : List (Nat × Nat) := [(0, 6), (6, 15), (15, 50), (50, 100), (100, 200), (200, 300)]
+/-- The tunable constants of `members.rs`.  Nothing in this file or in the theorems depends on their
+values: the driver instantiates them from `Corro/Gen/MembersConsts.lean` (regenerated from the source
+by `tools/extract_c18.py`), the examples of `Props/C18.lean` from a fixed table of their own. -/
+structure Cfg where
+  /-- `RING_BUCKETS`, half-open `lo..hi` in milliseconds, in table order -/
+  buckets : List (Nat × Nat)
+  /-- capacity `K` of the `CircularBuffer<K, u64>` sample window -/
+  cap : Nat
+  /-- a buffer that keeps no sample at all is not a configuration of the code -/
+  cap_pos : 0 < cap
 
-/-- capacity of the `CircularBuffer<20, u64>` -/
-def rttCap : Nat := 20
+section
+variable (cfg : Cfg)
 
 /-- index of the first bucket containing `avg` (`for (ring, n) in RING_BUCKETS.iter().enumerate()`
 with `break`), `none` when no bucket contains it. -/
@@ -79,12 +87,18 @@ def findBucket : List (Nat × Nat) → Nat → Nat → Option Nat
 def avgOf (buf : List Nat) : Option Nat :=
   if buf.isEmpty then none else some (buf.sum / buf.length)
 
+/-- `avg` lies in the first bucket of the table (ring 0) -/
+def inFirstBucket (bs : List (Nat × Nat)) (avg : Nat) : Prop :=
+  match bs with
+  | [] => False
+  | (lo, hi) :: _ => lo ≤ avg ∧ avg < hi
+
 /-- the ring that a buffer stands for: bucket index of its average; `none` without samples or
 without a matching bucket. -/
 def ringOf (buf : List Nat) : Option Nat :=
   match avgOf buf with
   | none => none
-  | some avg => findBucket ringBuckets avg 0
+  | some avg => findBucket cfg.buckets avg 0
 
 /-- `recalculate_rings(addr)`: only if the address is indexed, has a non-empty sample buffer and the
 indexed actor is in `states`; then the ring is `None` or the first matching bucket. -/
@@ -97,7 +111,7 @@ def recalc (m : Members) (addr : Nat) : Members :=
     | some avg =>
       match get m.states id with
       | none => m
-      | some st => { m with states := put id { st with ring := findBucket ringBuckets avg 0 } m.states }
+      | some st => { m with states := put id { st with ring := findBucket cfg.buckets avg 0 } m.states }
 
 /-- the index entry of `addr` is removed only if it belongs to `id` -/
 def dropIndex (ba : Map Nat) (addr id : Nat) : Map Nat :=
@@ -110,14 +124,14 @@ def addMember (m : Members) (id addr ts cluster : Nat) : Members × AddResult :=
     -- entry inserted with ring None; timestamps equal, neither comparison fires; NewMember tail
     let m1 : Members := { m with states := put id ⟨addr, ts, cluster, none⟩ m.states }
     let m2 : Members := { m1 with byAddr := put addr id m1.byAddr }
-    (recalc m2 addr, .newMember)
+    (recalc cfg m2 addr, .newMember)
   | some st =>
     if ts < st.ts then (m, .ignored)
     else if st.ts < ts then
       if st.addr ≠ addr then
         let m1 : Members := { m with states := put id ⟨addr, ts, cluster, none⟩ m.states }
         let m2 : Members := { m1 with byAddr := put addr id (dropIndex m1.byAddr st.addr id) }
-        (recalc m2 addr, .updated)
+        (recalc cfg m2 addr, .updated)
       else
         ({ m with states := put id { st with addr := addr, ts := ts, cluster := cluster } m.states }, .updated)
     else (m, .ignored)
@@ -131,13 +145,13 @@ def removeMember (m : Members) (id ts : Nat) : Members × Bool :=
       ({ m with byAddr := dropIndex m.byAddr st.addr id, states := del id m.states }, true)
     else (m, false)
 
-/-- `push_front` on the 20-slot circular buffer -/
-def pushSample (ms : Nat) (buf : List Nat) : List Nat := (ms :: buf).take rttCap
+/-- `push_front` on the `cap`-slot circular buffer -/
+def pushSample (ms : Nat) (buf : List Nat) : List Nat := (ms :: buf).take cfg.cap
 
 /-- `add_rtt(addr, Duration::from_millis(ms))` -/
 def addRtt (m : Members) (addr ms : Nat) : Members :=
   let buf := (get m.rtts addr).getD []
-  recalc { m with rtts := put addr (pushSample ms buf) m.rtts } addr
+  recalc cfg { m with rtts := put addr (pushSample cfg ms buf) m.rtts } addr
 
 /-- `ring0(cluster_id)`, in `states` iteration order -/
 def ring0 (m : Members) (cluster : Nat) : List Nat :=
@@ -160,14 +174,14 @@ inductive Op where
 deriving Repr, DecidableEq, Inhabited
 
 def step (m : Members) : Op → Members
-  | .up id addr ts cluster => (addMember m id addr ts cluster).1
+  | .up id addr ts cluster => (addMember cfg m id addr ts cluster).1
   | .down id _ ts _ => (removeMember m id ts).1
-  | .rtt addr ms => addRtt m addr ms
+  | .rtt addr ms => addRtt cfg m addr ms
   | .ring0 _ => m
 
-def runFrom (m : Members) (ops : List Op) : Members := ops.foldl step m
+def runFrom (m : Members) (ops : List Op) : Members := ops.foldl (step cfg) m
 
-def run (ops : List Op) : Members := runFrom init ops
+def run (ops : List Op) : Members := runFrom cfg init ops
 
 /-! ### the specification: fold by newest identity -/
 
@@ -262,8 +276,8 @@ def samplesFor (addr : Nat) : List Op → List Nat
   | .rtt a ms :: r => if a = addr then ms :: samplesFor addr r else samplesFor addr r
   | _ :: r => samplesFor addr r
 
-/-- the (at most 20) newest samples for `addr`, newest first -/
-def newestSamples (addr : Nat) (ops : List Op) : List Nat := (samplesFor addr ops).reverse.take rttCap
+/-- the (at most `cap`) newest samples for `addr`, newest first -/
+def newestSamples (addr : Nat) (ops : List Op) : List Nat := (samplesFor addr ops).reverse.take cfg.cap
 
 /-! ### predicates used by the property statements (`Props/C18.lean`) -/
 
@@ -304,9 +318,9 @@ def DistinctAddrs (m : Members) : Prop :=
 instance (m : Members) : Decidable (DistinctAddrs m) := by unfold DistinctAddrs; infer_instance
 
 /-- … at every point of the sequence -/
-def NoSharedAddr (ops : List Op) : Prop := ∀ k, k ≤ ops.length → DistinctAddrs (run (ops.take k))
+def NoSharedAddr (ops : List Op) : Prop := ∀ k, k ≤ ops.length → DistinctAddrs (run cfg (ops.take k))
 
-instance (ops : List Op) : Decidable (NoSharedAddr ops) := by unfold NoSharedAddr; infer_instance
+instance (ops : List Op) : Decidable (NoSharedAddr cfg ops) := by unfold NoSharedAddr; infer_instance
 
 /-- every index entry points to a listed member whose current address it is -/
 def IndexSound (m : Members) : Prop :=
@@ -320,6 +334,8 @@ def IndexComplete (m : Members) : Prop :=
 address's current sample buffer -/
 def RingCurrent (m : Members) : Prop :=
   ∀ id st, get m.states id = some st → get m.byAddr st.addr = some id →
-    st.ring = ringOf ((get m.rtts st.addr).getD [])
+    st.ring = ringOf cfg ((get m.rtts st.addr).getD [])
+
+end
 
 end Corro.Members
